@@ -119,9 +119,16 @@ func vAssume(c bool) {
 	}
 }
 
+type vReproduced struct{}
+
 func vAssert(c bool, label string) {
 	if !c {
 		vRFailed = append(vRFailed, label)
+		vLoadReplay()
+		if label == vRF.Label && vRF.Kind != "crash" {
+			// the counterexample's path ends at this obligation
+			panic(vReproduced{})
+		}
 	}
 }
 
@@ -170,6 +177,9 @@ func vCatch(f func()) (panicked bool) {
 			if _, ok := p.(vAssumeFailed); ok {
 				panic(p)
 			}
+			if _, ok := p.(vReproduced); ok {
+				panic(p)
+			}
 			panicked = true
 		}
 	}()
@@ -192,12 +202,17 @@ func vRunReplay(entries map[string]func()) (outcome string) {
 					crashed = "ASSUME"
 					return
 				}
+				if _, ok := p.(vReproduced); ok {
+					return
+				}
 				crashed = fmt.Sprintf("PANIC %v", p)
 			}
 		}()
 		f()
 	}()
 	switch {
+	case crashed == "ASSUME" && len(vRFailed) > 0:
+		// an obligation had already failed before the run left the bound
 	case crashed == "ASSUME":
 		return "NOT-REPRODUCED assumption failed natively"
 	case crashed != "" && vRF.Kind == "crash":
